@@ -56,9 +56,18 @@ def tune_script(draw, n, hopping=True, power=True, formats=True, mute_prob=0.1):
     shared_hsn = draw(st.one_of(st.just(0), st.integers(1, 63)))
     shared_ma = draw(st.lists(st.sampled_from(HOP_POOL), min_size=1, max_size=8, unique=True))
     shared_maio = draw(st.integers(0, len(shared_ma) - 1))
+    # "one cell" flavour: fixed-tuned transceivers share one carrier pair, BTS-side ones mirrored to MS-side ones,
+    # so that several transceivers receive the same burst (multi-recipient forwarding)
+    cell = draw(st.booleans())
+    cell_pair = draw(st.sampled_from(HOP_POOL))
     for i in range(n):
         mode = draw(st.sampled_from(["fixed", "fixed", "hop", "hop", "untuned"] if hopping else ["fixed", "fixed", "fixed", "untuned"]))
-        if mode == "fixed" or (mode == "hop" and draw(st.booleans())):
+        if mode == "fixed" and cell and draw(st.integers(0, 5)) > 0:
+            ms_side = (i == 1) or (i > 1 and draw(st.integers(0, 2)) > 0)
+            (dl, ul) = cell_pair
+            out.append((i, "RXTUNE", [str(dl if ms_side else ul)]))
+            out.append((i, "TXTUNE", [str(ul if ms_side else dl)]))
+        elif mode == "fixed" or (mode == "hop" and draw(st.booleans())):
             # many setups tune first and enable hopping on top
             out.append((i, "RXTUNE", [str(draw(st.sampled_from(FREQ_POOL)))]))
             out.append((i, "TXTUNE", [str(draw(st.sampled_from(FREQ_POOL)))]))
